@@ -210,7 +210,7 @@ class EnumExactValueProvider(BaseEnumProvider):
 
                 try:
                     return enum(data)
-                except ValueError:
+                except (ValueError, ArithmeticError):  # comparison with Decimal('sNaN') raises InvalidOperation
                     raise BadVariantLoadError(variants, data) from None
 
             return enum_exact_loader
